@@ -142,7 +142,7 @@ def find_islands(im, bkg, rms,
 
             island = PixelIsland()
             island.calc_bounding_box(
-                np.array(np.nan_to_num(data_box), dtype=bool),
+                np.isfinite(data_box),
                 offsets=[xmin, ymin]
             )
             island.set_mask(island_mask)
